@@ -282,23 +282,58 @@ theorem param2ast_some (env : Env) (hEnv : EnvOK env) (n t : String) (doc : Opti
 
 theorem codeQuoted_None : codeQuoted "None" = false := by decide
 
-/-- on a Python value that `okDefault` admits, `_infer_default` changes nothing -/
-theorem inferDefault_val (it fn : Bool) (doc : Option String) (t : String) (d : Default) (hd : okDefault fn t d = true) :
+/-- what `_infer_default` needs of a value so that an entry of type `t` is left alone -/
+def okInfer (t : String) : Default → Bool
+  | .str s => s == NoneStr || (!quotedLike s && s != "None" && (!codeQuoted s || hasChar t '['))
+  | _ => true
+
+/-- … and the `was_none` rule: a `None` default sits under `Optional[…]` -/
+def okSnt (t : String) (d : Default) : Bool := okInfer t d && (!d.inNoneTypes || startsWith t "Optional[")
+
+theorem okDefault_okSnt {fn : Bool} {t : String} {d : Default} (h : okDefault fn t d = true) : okSnt t d = true := by
+  cases d with
+  | str s =>
+    rcases okDefault_str_cases h with ⟨h1, h2⟩ | ⟨h1, h2, h3, h4⟩ | ⟨h1, h2, h3, _⟩
+    · simp [okSnt, okInfer, h1, h2]
+    · have hql := (okCodeStr_facts h3).1
+      have hn : s ≠ "None" := by intro h; rw [h, codeQuoted_None] at h2; cases h2
+      simp [okSnt, okInfer, h1, hql, hn, h4, Default.inNoneTypes]
+    · obtain ⟨hql, hn⟩ := okPlainStr_facts h3
+      simp [okSnt, okInfer, h1, hql, hn, h2, Default.inNoneTypes]
+  | int i => rfl
+  | float r => rfl
+  | complex r => rfl
+  | bool b => rfl
+
+theorem okInfer_str_cases {t s : String} (h : okInfer t (.str s) = true) :
+    s = NoneStr ∨ (s ≠ NoneStr ∧ quotedLike s = false ∧ s ≠ "None" ∧ (codeQuoted s = true → hasChar t '[' = true)) := by
+  unfold okInfer at h
+  by_cases h1 : s = NoneStr
+  · left; exact h1
+  · right
+    have : (s == NoneStr) = false := by simpa using h1
+    simp only [this, Bool.false_or, Bool.and_eq_true, Bool.not_eq_true', bne_iff_ne, ne_eq, Bool.or_eq_true] at h
+    refine ⟨h1, h.1.1, h.1.2, ?_⟩
+    intro hc
+    rcases h.2 with h2 | h2
+    · rw [hc] at h2; cases h2
+    · exact h2
+
+/-- on a Python value that `okInfer` admits, `_infer_default` changes nothing -/
+theorem inferDefault_val (it : Bool) (doc : Option String) (t : String) (d : Default) (hd : okInfer t d = true) :
     inferDefault it { doc := doc, typ := some t, default := some (.val d) } = .ok { doc := doc, typ := some t, default := some (.val d) } := by
   unfold inferDefault
   cases d with
   | str s =>
-    rcases okDefault_str_cases hd with ⟨h1, _⟩ | ⟨h1, h2, h3, h4⟩ | ⟨h1, h2, h3, _⟩
+    rcases okInfer_str_cases hd with h1 | ⟨h1, hql, hn, h4⟩
     · subst h1
       simp [DVal.inNoneTypes, Default.inNoneTypes, pure, Except.pure, bind, Except.bind, unquoteStr_id quotedLike_NoneStr, DVal.isNoneStr,
         Default.isNoneStr]
-    · have hql := (okCodeStr_facts h3).1
-      have hn : s ≠ "None" := by intro h; rw [h, codeQuoted_None] at h2; cases h2
-      simp [DVal.inNoneTypes, Default.inNoneTypes, pure, Except.pure, bind, Except.bind, unquoteStr_id hql, DVal.isNoneStr,
-        Default.isNoneStr, h1, hn, DVal.isCodeStr, Default.isCode, h2, h4]
-    · obtain ⟨hql, hn⟩ := okPlainStr_facts h3
-      simp [DVal.inNoneTypes, Default.inNoneTypes, pure, Except.pure, bind, Except.bind, unquoteStr_id hql, DVal.isNoneStr,
-        Default.isNoneStr, h1, hn, DVal.isCodeStr, Default.isCode, h2]
+    · by_cases h2 : codeQuoted s = true
+      · simp [DVal.inNoneTypes, Default.inNoneTypes, pure, Except.pure, bind, Except.bind, unquoteStr_id hql, DVal.isNoneStr,
+          Default.isNoneStr, h1, hn, DVal.isCodeStr, Default.isCode, h2, h4 h2]
+      · simp [DVal.inNoneTypes, Default.inNoneTypes, pure, Except.pure, bind, Except.bind, unquoteStr_id hql, DVal.isNoneStr,
+          Default.isNoneStr, h1, hn, DVal.isCodeStr, Default.isCode, h2]
   | int i => by_cases hq : needsQuoting (some t) = true <;>
       simp [DVal.inNoneTypes, Default.inNoneTypes, pure, Except.pure, bind, Except.bind, DVal.isNoneStr, Default.isNoneStr, DVal.isCodeStr, Default.isCode, hq]
   | float r => by_cases hq : needsQuoting (some t) = true <;>
@@ -307,6 +342,15 @@ theorem inferDefault_val (it fn : Bool) (doc : Option String) (t : String) (d : 
       simp [DVal.inNoneTypes, Default.inNoneTypes, pure, Except.pure, bind, Except.bind, DVal.isNoneStr, Default.isNoneStr, DVal.isCodeStr, Default.isCode, hq]
   | bool b => by_cases hq : needsQuoting (some t) = true <;>
       simp [DVal.inNoneTypes, Default.inNoneTypes, pure, Except.pure, bind, Except.bind, DVal.isNoneStr, Default.isNoneStr, DVal.isCodeStr, Default.isCode, hq]
+
+theorem okSnt_wasNone {t : String} {d : Default} (h : okSnt t d = true) (hw : d.inNoneTypes = true) : startsWith t "Optional[" = true := by
+  unfold okSnt at h
+  simpa [hw] using h
+
+theorem okSnt_okInfer {t : String} {d : Default} (h : okSnt t d = true) : okInfer t d = true := by
+  unfold okSnt at h
+  simp only [Bool.and_eq_true] at h
+  exact h.1
 
 /-! ## `_set_name_and_type` -/
 
@@ -375,12 +419,12 @@ theorem sntDoc_quiet (env : Env) (n : String) (wasNone : Bool) (d0? : Option Str
 
 /-- `_set_name_and_type` on an entry whose description is quiet and whose default is admissible: name, type and default
     stay, the description is tidied (or dropped when empty) -/
-theorem setNameAndType_ok (env : Env) (it fn : Bool) (n : String) (d0? : Option String) (t : String) (dflt : Option Default)
-    (hn : okName n = true) (ht : okTyp t = true) (hd : ∀ d, dflt = some d → okDefault fn t d = true)
+theorem setNameAndType_ok (env : Env) (it : Bool) (n : String) (d0? : Option String) (t : String) (dflt : Option Default)
+    (hk : (endsWith n "kwargs" || startsWith n "*") = false) (hg : endsWith t googleOpt = false)
+    (hd : ∀ d, dflt = some d → okSnt t d = true)
     (hq : ∀ d0, d0? = some d0 → docQuiet env n (isNoneStrD (dflt.map .val)) d0 = true) :
     setNameAndType env it (n, { doc := d0?, typ := some t, default := dflt.map .val }) =
       .ok (n, { doc := docAfter d0?, typ := some t, default := dflt.map .val }) := by
-  obtain ⟨hk, _⟩ := okName_facts hn
   unfold setNameAndType
   have hm : sntMerge env ⟨d0?, some t, dflt.map DVal.val⟩ = ⟨d0?, some t, dflt.map DVal.val⟩ :=
     sntMerge_quiet env n _ ⟨d0?, some t, dflt.map DVal.val⟩ hq
@@ -388,29 +432,14 @@ theorem setNameAndType_ok (env : Env) (it fn : Bool) (n : String) (d0? : Option 
   cases dflt with
   | none =>
     simp only [Option.map_none, Option.isSome_none, Bool.false_eq_true, ↓reduceIte, bind, Except.bind, pure, Except.pure]
-    rw [sntGoogle_id _ t rfl (okTyp_googleOpt ht)]
+    rw [sntGoogle_id _ t rfl hg]
     have := sntDoc_quiet env n false d0? t none (by simpa using hq) (by intro h; cases h)
     simp only [this]
   | some d =>
-    simp only [Option.map_some, Option.isSome_some, ↓reduceIte, inferDefault_val it fn d0? t d (hd d rfl), bind, Except.bind, pure, Except.pure]
-    rw [sntGoogle_id _ t rfl (okTyp_googleOpt ht)]
-    have := sntDoc_quiet env n d.inNoneTypes d0? t (some (.val d)) (by simpa using hq) ?_
-    · simp only [this]
-    -- the `was_none` wrapping is a no-op: a `None` default sits under `Optional[…]`
-    intro hw
-    cases d with
-    | str s =>
-      rcases okDefault_str_cases (hd _ rfl) with ⟨_, h⟩ | ⟨h1, h2, _, _⟩ | ⟨h1, _, h3, _⟩
-      · exact h
-      · simp only [Default.inNoneTypes, Bool.or_eq_true, beq_iff_eq] at hw
-        rcases hw with hw | hw
-        · rw [hw, codeQuoted_None] at h2; cases h2
-        · exact absurd hw h1
-      · simp only [Default.inNoneTypes, Bool.or_eq_true, beq_iff_eq] at hw
-        rcases hw with hw | hw
-        · exact absurd hw (okPlainStr_facts h3).2
-        · exact absurd hw h1
-    | _ => simp [Default.inNoneTypes] at hw
+    simp only [Option.map_some, Option.isSome_some, ↓reduceIte, inferDefault_val it d0? t d (okSnt_okInfer (hd d rfl)), bind, Except.bind, pure, Except.pure]
+    rw [sntGoogle_id _ t rfl hg]
+    have := sntDoc_quiet env n d.inNoneTypes d0? t (some (.val d)) (by simpa using hq) (okSnt_wasNone (hd d rfl))
+    simp only [this]
 
 /-! ## lists in the `Except` monad -/
 
@@ -657,7 +686,7 @@ theorem class_entry (env : Env) (it : Bool) (kv0 kv : String × Param) (hp : okP
       have hupd : updOf (n0, p) p0 = { doc := p0.doc, typ := some t, default := (none : Option Default).map .val } := by
         simp [updOf, htyp, hnone, h0]
       rw [hupd]
-      have := setNameAndType_ok env it false n0 p0.doc t none hn ht (fun d h => by cases h)
+      have := setNameAndType_ok env it n0 p0.doc t none hnk (okTyp_googleOpt ht) (fun d h => by cases h)
         (fun d0 h => by
           have := hquiet
           simp only [h] at this
@@ -667,7 +696,7 @@ theorem class_entry (env : Env) (it : Bool) (kv0 kv : String × Param) (hp : okP
     · have hupd : updOf (n0, p) p0 = { doc := p0.doc, typ := some t, default := (some d).map .val } := by
         simp [updOf, htyp, hd]
       rw [hupd]
-      have := setNameAndType_ok env it false n0 p0.doc t (some d) hn ht (fun d' h => by cases h; exact hok)
+      have := setNameAndType_ok env it n0 p0.doc t (some d) hnk (okTyp_googleOpt ht) (fun d' h => by cases h; exact okDefault_okSnt hok)
         (fun d0 h => by
           have := hquiet
           simp only [h] at this
